@@ -78,7 +78,7 @@ PROPS["C05"] = dict(
 
 PROPS["C04"] = dict(
     level="other", claimed=True, verus=True,
-    level_text="Verus (unit friverifv, body cut out of /repo, abstract channel / coin / field): FriVerifier::new for EVERY number of layer commitments - a list whose length is not the number of folding steps plus one is refused before the coin is touched, otherwise the coin sees exactly reseed(c_0), draw, reseed(c_1), draw, ..., the challenge stored for layer i is the one drawn after c_i, and DegreeTruncation is returned exactly at the first non-final depth whose running degree bound plus one is not a multiple of the folding factor. Kani on the real channel code with doubles (Air, hasher, coin): every ProverChannel send / commit records the message in the proof and reseeds the coin with exactly that message; the seed is hash(context || public inputs); query positions come from draw_integers with the ground nonce; FriVerifier::new reseeds-then-draws per commitment in order; the remainder polynomial carried in the proof is the one whose commitment was absorbed (also for layer-less proofs); the seed elements bind the proof context (contexts that differ only in their trace metadata are absorbed differently; bounded); Verus (unit coinv): the coin's state machine for every hasher; the integer absorbed by merge_with_int (grinding nonce) is injective for the three Rescue hashers. Native bounded stand-in: the real prover and verifier run with a recording coin and both operation sequences are compared with the transcript the protocol requires (absorbed values recomputed from the proof bytes, GKR randomness before auxiliary randomness, every challenge after the messages that precede it, identical challenge values), on single-segment, auxiliary and Lagrange-kernel traces over three extension degrees and two hashers.",
+    level_text="Verus (unit friverifv, body cut out of /repo, abstract channel / coin / field): FriVerifier::new for EVERY number of layer commitments - a list whose length is not the number of folding steps plus one is refused before the coin is touched, otherwise the coin sees exactly reseed(c_0), draw, reseed(c_1), draw, ..., the challenge stored for layer i is the one drawn after c_i, and DegreeTruncation is returned exactly at the first non-final depth whose running degree bound plus one is not a multiple of the folding factor. Kani on the real channel code with doubles (Air, hasher, coin): every ProverChannel send / commit records the message in the proof and reseeds the coin with exactly that message; the seed is hash(context || public inputs); query positions come from draw_integers with the ground nonce; FriVerifier::new reseeds-then-draws per commitment in order; the remainder polynomial carried in the proof is the one whose commitment was absorbed (also for layer-less proofs); the seed elements bind the proof context (contexts that differ only in their trace metadata are absorbed differently; Kani for 1 versus 2 symbolic bytes, and the stand-in context_native: no collision among 2.2 million metadata strings of up to 16 bytes nor among contexts differing in width, length or any option); Verus (unit coinv): the coin's state machine for every hasher; the integer absorbed by merge_with_int (grinding nonce) is injective for the three Rescue hashers. Native bounded stand-in: the real prover and verifier run with a recording coin and both operation sequences are compared with the transcript the protocol requires (absorbed values recomputed from the proof bytes, GKR randomness before auxiliary randomness, every challenge after the messages that precede it, identical challenge values), on single-segment, auxiliary and Lagrange-kernel traces over three extension degrees and two hashers.",
     level_note="Prover::generate_proof and perform_verification are generic over user types and out of both verifiers' reach: their order of coin operations is observed on the stand-in's grid, not proved. One asymmetry is tolerated: the verifier draws an unused folding challenge after the FRI remainder commitment (DESIGN.md 9.1).",
     explanation=MIX)
 PROPS["C03"] = dict(
